@@ -28,6 +28,22 @@ def root_name(e: ast.AST) -> Optional[str]:
     return e.id if isinstance(e, ast.Name) else None
 
 
+def key_truth(ev, KEY: str):
+    """For a ("cond", expr, outcome) event about KEY: True if it establishes
+    KEY truthy, False if it establishes KEY falsy/None, else None."""
+    if ev[0] != "cond":
+        return None
+    c, o = ev[1], ev[2]
+    if isinstance(c, ast.Name) and c.id == KEY:
+        return bool(o)
+    t = norm(c)
+    if t == f"{KEY} is not None":
+        return None if o else False
+    if t == f"{KEY} is None":
+        return False if o else None
+    return None
+
+
 def isinstance_test(e: ast.AST):
     """(var, [class names]) for `isinstance(var, C)` / `isinstance(var, (C, D))`."""
     if isinstance(e, ast.Call) and dotted(e.func) == "isinstance" and len(e.args) == 2 and isinstance(e.args[0], ast.Name):
@@ -186,10 +202,6 @@ class FoldRules:
                         guarded_all = False
                 elif ev[0] == "cond" and isinstance(ev[1], ast.Name) and ev[1].id == r.KEY:
                     key_truthy = bool(ev[2])
-                elif ev[0] == "cond" and norm(ev[1]) in (f"{r.KEY} is not None",):
-                    key_truthy = bool(ev[2])
-                elif ev[0] == "cond" and norm(ev[1]) in (f"{r.KEY} is None",):
-                    key_truthy = not ev[2]
                 elif ev[0] == "stmt" and r.KEY in assigned_names(ev[1]):
                     key_truthy = False
         ctx.ob("O2", f"{self.q}/append-guard", guarded_all and reach > 0,
@@ -340,7 +352,7 @@ class FoldRules:
                     it = isinstance_test(ev[1])
                     if it and it[0] == r.CIT and ev[2] and not calls_full:
                         last_true = it[1]
-                    if isinstance(ev[1], ast.Name) and ev[1].id == r.KEY and not ev[2]:
+                    if key_truth(ev, r.KEY) is False:
                         key_tested_false = True
             if calls_full:
                 n_full += 1
